@@ -567,6 +567,9 @@ func (r *rewriter) maybeSeam(fd *ast.FuncDecl) {
 	}
 	guard := &ast.IfStmt{Cond: &ast.BinaryExpr{X: ast.NewIdent(seamName), Op: token.NEQ, Y: ast.NewIdent("nil")}, Body: ret.(*ast.BlockStmt)}
 	fd.Body.List = append([]ast.Stmt{guard}, fd.Body.List...)
+	if r.pkg.Types != nil && r.pkg.Types.Scope().Lookup(seamName) != nil {
+		return // declared by the harness's add-file
+	}
 	decl := &ast.GenDecl{Tok: token.VAR, Specs: []ast.Spec{&ast.ValueSpec{Names: []*ast.Ident{ast.NewIdent(seamName)}, Type: ft}}}
 	r.file.Decls = append(r.file.Decls, decl)
 }
